@@ -61,7 +61,7 @@ def generate(rng, tier):
         pr = rng.random()
         periodic = True if pr < 0.3 else False if pr < 0.6 else {a: rng.random() < 0.5 for a in axes}
         ctor = {"coords": coords, "N": N, "periodic": periodic,
-                "boundary": G.kwval(rng, axes, G.WORDS), "fill": G.kwval(rng, axes, [0, 3, -2, 7])}
+                "boundary": G.kwval(rng, axes, G.WORDS), "fill": G.kwval(rng, axes, [0, 3, -2, 7, 0.5])}
         op_axes = [a for a in axes if rng.random() < 0.8] or [axes[0]]
         rng.shuffle(op_axes)
         dims = []
@@ -84,9 +84,14 @@ def generate(rng, tier):
         for _, l in dims:
             size *= l
         vals = [(7 * i * i + 3 * i + 11) % 23 - 5 for i in range(size)]
+        # how the numbers are held: the same real values as float64, int64 or float32; some beyond
+        # 2**24 (not representable in single precision; all arithmetic stays exact in double)
+        dtype = rng.choice(["float64", "float64", "float64", "int64", "int64", "float32"])
+        if dtype != "float32" and rng.random() < 0.3:
+            vals = [v + 16777217 for v in vals]
         call = {"func": rng.choice(OPS), "axes": op_axes, "to": to,
-                "boundary": G.kwval(rng, axes, G.WORDS), "fill": G.kwval(rng, axes, [0, 5, -1, 9])}
-        cases.append({"ctor": ctor, "dims": dims, "vals": vals, "call": call})
+                "boundary": G.kwval(rng, axes, G.WORDS), "fill": G.kwval(rng, axes, [0, 5, -1, 9, -1.5, 2.25])}
+        cases.append({"ctor": ctor, "dims": dims, "vals": vals, "call": call, "dtype": dtype})
     return cases
 
 
@@ -97,7 +102,8 @@ def run_impl(case):
     ds, g, sizes = G.build_grid(c, with_coords=True)
     k = case["call"]
     shape = [l for _, l in case["dims"]]
-    da = xr.DataArray(np.array(case["vals"], dtype=float).reshape(shape), dims=[d for d, _ in case["dims"]])
+    da = xr.DataArray(np.array(case["vals"], dtype=case.get("dtype", "float64")).reshape(shape),
+                      dims=[d for d, _ in case["dims"]])
     kwargs = {}
     if k["to"] is not None:
         kwargs["to"] = k["to"]
